@@ -93,8 +93,9 @@ def run(ctx):
     ctx.oblige('correspondence:levels-and-level-changes-unobservable', diffs == 0, f'{diffs} differing runs')
     task_stats = client_task_family(ctx)
     server_stats = server_task_family(ctx)
+    rtu_stats = rtu_server_task_family(ctx)
     ctx.coverage.update({
-        'evaluations': len(lines) + task_stats.get('runs', 0) + server_stats.get('runs', 0),
+        'evaluations': len(lines) + task_stats.get('runs', 0) + server_stats.get('runs', 0) + rtu_stats.get('runs', 0),
         'distinct_nontrivial': len(nontrivial),
         'rule': 'groups = one scripted stream (valid / mutated / badly framed frames or raw bytes, chunked) run at level nothing plus variants: highest level, a random level, and a level-change command injected at chunk positions (quick: 3 random positions; thorough: every position); non-trivial = the reference run produced wire output or handler calls; distinct by stream',
         'samples': [[groups[0][0][:160], groups[0][1][-1][0][:160], out[0][:200]]],
@@ -102,6 +103,7 @@ def run(ctx):
         'groups': len(groups),
         'client_task_family': task_stats,
         'server_task_family': server_stats,
+        'rtu_server_task_family': rtu_stats,
         'exhaustive': False,
     })
 
@@ -249,3 +251,60 @@ def server_task_family(ctx):
                                   {'server_cases': [[b, v]], 'reference': strip(b, o2[0]), 'got': strip(v, o2[1])})
     ctx.oblige('correspondence:server-task-level-changes-unobservable', diffs == 0, f'{diffs} differing scripts')
     return {'scripts': len(groups), 'runs': len(lines), 'kinds': kinds}
+
+
+def rtu_server_task_family(ctx):
+    """the REAL RTU server task on a pty (harness `rtu_task`): the first open fails, the task waits its retry
+    delay (1 s) and re-opens the port. The same timed script without and with ServerHandle::set_decode_level
+    calls DURING that wait: a request sent 400 ms after the delay is over is answered in both runs, so are
+    later requests, the handler log is the same and shutdown ends the task (a level change must neither
+    shorten nor prolong the wait)."""
+    from checks import srv
+    r = ctx.rng
+    if ctx.replay and 'rtu_wait_cases' in ctx.replay:
+        pairs = [tuple(x) for x in ctx.replay['rtu_wait_cases']]
+    elif ctx.replay:
+        return {}
+    else:
+        pairs = []
+        n = 6 if ctx.quick() else 40
+        for _ in range(n):
+            units = (srv.simple_unit(1, r.choice([1, 3, 7]), r.randrange(1000)),)
+            head = srv.to_line(('rtu', units, None, ())).split('|')[1]
+            read = 'tx:' + srv.adu('rtu', (None, 1, bytes([3, 0, 0, 0, 1]))).hex().upper()
+            probe = 'txq:' + srv.adu('rtu', (None, 1, bytes([3, 0, 0, 0, 2]))).hex().upper()
+            # level changes at 2..4 instants in (250, 950) ms of the 1000 ms wait, the last one after 600 ms
+            ts = sorted(set([r.randrange(600, 950)] + [r.randrange(250, 950) for _ in range(r.choice([1, 2, 3]))]))
+
+            def steps(with_levels):
+                out = ['unlink', 'sleep:100', 'link']
+                t = 100
+                for x in ts:
+                    out.append(f'sleep:{x - t}')
+                    t = x
+                    if with_levels:
+                        out.append(r.choice(['max', 'min']))
+                out += [f'sleep:{1400 - t}', probe, 'sleep:400', read, 'shutdown', 'sleep:200']
+                return f'1000:4000|{head}|' + ','.join(out)
+            with_l = steps(True)
+            pairs.append((steps(False), with_l))
+    lines = [x for p in pairs for x in p]
+
+    def run(ls):
+        return ctx.harness('rtu_task', ls, shards=min(8, len(ls)), timeout=600)
+    out = run(lines)
+    diffs = 0
+    for i, (b, v) in enumerate(pairs):
+        ob, ov = out[2 * i], out[2 * i + 1]
+        if ob != ov:
+            # once more, alone (a timing accident on a loaded machine does not repeat)
+            ob, ov = run([b, v])
+            if ob == ov:
+                continue
+            diffs += 1
+            if diffs <= 2:
+                ctx.violation('rtu-server-task.level-change-during-the-wait.observable-differs',
+                              'real RTU server task: replies / handler calls / end differ from the same timed script without decode-level changes during the wait before the re-open',
+                              {'rtu_wait_cases': [[b, v]], 'reference': ob, 'got': ov})
+    ctx.oblige('correspondence:rtu-server-task-level-changes-unobservable', diffs == 0, f'{diffs} differing scripts')
+    return {'scripts': len(pairs), 'runs': len(lines)}
